@@ -61,32 +61,28 @@ theorem firstValidBelow_repr (y : Int) (m : Nat) (succ : Bool) (n : Nat) :
           · exact ih p hp
       · exact ih p hp
 
-theorem validYmdBefore_repr (y : Int) (m d : Nat) :
-    minDay ≤ validYmdBefore y m d ∧ validYmdBefore y m d ≤ maxDay := by
-  unfold validYmdBefore
-  split
-  · rename_i r hr; exact ofYmd?_inRange hr
-  · cases h : firstValidBelow y m false (d - 1) with
-    | none => exact repr_dateEnd
-    | some p => exact firstValidBelow_repr y m false (d - 1) p h
+theorem validYmdBefore_repr (y : Int) (m d : Nat) (p : Int) (h : validYmdBefore y m d = some p) :
+    minDay ≤ p ∧ p ≤ maxDay := by
+  unfold validYmdBefore at h
+  split at h
+  · rename_i r hr; cases h; exact ofYmd?_inRange hr
+  · exact firstValidBelow_repr y m false (d - 1) p h
 
-theorem validYmdAfter_repr (y : Int) (m d : Nat) :
-    minDay ≤ validYmdAfter y m d ∧ validYmdAfter y m d ≤ maxDay := by
-  unfold validYmdAfter
-  split
-  · rename_i r hr; exact ofYmd?_inRange hr
-  · cases h : firstValidBelow y m true (d - 1) with
-    | none => exact repr_dateEnd
-    | some p => exact firstValidBelow_repr y m true (d - 1) p h
+theorem validYmdAfter_repr (y : Int) (m d : Nat) (p : Int) (h : validYmdAfter y m d = some p) :
+    minDay ≤ p ∧ p ≤ maxDay := by
+  unfold validYmdAfter at h
+  split at h
+  · rename_i r hr; cases h; exact ofYmd?_inRange hr
+  · exact firstValidBelow_repr y m true (d - 1) p h
 
 theorem dateOnYear_total (ds : DateSpec) (y : Int) (after : Bool) :
     ∃ r, dateOnYear ds y after = .ok r ∧ ∀ p, r = some p → (minDay ≤ p ∧ p ≤ maxDay) := by
-  have hv : ∀ yy m d, minDay ≤ (if after = true then validYmdAfter yy m d else validYmdBefore yy m d) ∧
-      (if after = true then validYmdAfter yy m d else validYmdBefore yy m d) ≤ maxDay := by
-    intro yy m d
+  have hv : ∀ yy m d p, (if after = true then validYmdAfter yy m d else validYmdBefore yy m d) = some p →
+      minDay ≤ p ∧ p ≤ maxDay := by
+    intro yy m d p hp
     cases after
-    · exact validYmdBefore_repr yy m d
-    · exact validYmdAfter_repr yy m d
+    · exact validYmdBefore_repr yy m d p hp
+    · exact validYmdAfter_repr yy m d p hp
   cases ds with
   | easter oy =>
     unfold dateOnYear
@@ -97,18 +93,12 @@ theorem dateOnYear_total (ds : DateSpec) (y : Int) (after : Bool) :
     cases oy with
     | none =>
       unfold dateOnYear
-      refine ⟨_, rfl, ?_⟩
-      intro p hp
-      cases hp
-      exact hv y m d
+      exact ⟨_, rfl, fun p hp => hv y m d p hp⟩
     | some yy =>
       unfold dateOnYear
       simp only []
       split
-      · refine ⟨_, rfl, ?_⟩
-        intro p hp
-        cases hp
-        exact hv yy m d
+      · exact ⟨_, rfl, fun p hp => hv yy m d p hp⟩
       · exact ⟨none, rfl, fun p hp => by cases hp⟩
 
 
